@@ -27,3 +27,45 @@ fn verif_witness_c01_failed_overwrite_is_harmless() {
     }
     assert_eq!(store.len(), 8);
 }
+
+/// A failing call's explicit timestamp must not be absorbed into the version clock (C12): both insert paths, a
+/// future timestamp and `u64::MAX - 1`. (Scenarios from the independently seeded demonstration r5-C12.)
+#[test]
+fn verif_witness_c01_failed_overwrite_is_harmless_clock() {
+    const HOUR: u64 = 3_600_000_000_000;
+    let limit = |key: &[u8]| {
+        let probe = FeoxStore::builder().build().unwrap();
+        probe.insert(key, b"a").unwrap();
+        probe.memory_usage()
+    };
+    for bytes_path in [false, true] {
+        let key = b"clock_future";
+        let store = FeoxStore::builder().max_memory(limit(key)).build().unwrap();
+        store.insert(key, b"a").unwrap();
+        let now = store.get_timestamp_pub();
+        let refused = if bytes_path {
+            store.insert_bytes_with_timestamp(key, crate::Bytes::from_static(b"bb"), Some(now + 2 * HOUR))
+        } else {
+            store.insert_with_timestamp(key, b"bb", Some(now + 2 * HOUR))
+        };
+        assert!(matches!(refused, Err(FeoxError::OutOfMemory)));
+        assert_eq!(store.get(key).unwrap(), b"a");
+        store.insert(key, b"b").unwrap();
+        store
+            .insert_with_timestamp(key, b"c", Some(now + HOUR))
+            .expect("the timestamp of a FAILED call was absorbed into the clock: a legitimate newer explicit version is refused as older");
+
+        let key = b"clock_extreme";
+        let store = FeoxStore::builder().max_memory(limit(key)).build().unwrap();
+        store.insert(key, b"a").unwrap();
+        let refused = if bytes_path {
+            store.insert_bytes_with_timestamp(key, crate::Bytes::from_static(b"bb"), Some(u64::MAX - 1))
+        } else {
+            store.insert_with_timestamp(key, b"bb", Some(u64::MAX - 1))
+        };
+        assert!(matches!(refused, Err(FeoxError::OutOfMemory)));
+        store.insert(key, b"b").unwrap();
+        store.insert(key, b"c").expect("automatic write rejected as older after a FAILED explicit write pinned the key");
+        store.delete(key).unwrap();
+    }
+}
